@@ -63,7 +63,7 @@ theorem ehep_I_riemann (p : EHEP.P) (x t : ℝ) (hD : p.D ≠ 0) (ht : t ≠ 0) 
 theorem ehep_I_isentrope (p : EHEP.P) (x t : ℝ) (hD : p.D ≠ 0) :
     EHEP.L23.density p x t = 16 * p.rho_0 / (9 * p.D) * EHEP.L23.sound_speed p x t ∧
     EHEP.L23.pressure p x t = 16 * p.rho_0 / (27 * p.D) * EHEP.L23.sound_speed p x t ^ 3 := by
-  constructor <;> simp only [epv_leaf] <;> field_simp
+  constructor <;> simp only [epv_leaf] <;> field_simp <;> (try ring1)
 
 theorem ehep_I_mass (p : EHEP.P) (x t : ℝ) (hD : p.D ≠ 0) (ht : t ≠ 0) :
     massRes (EHEP.L23.density p) (EHEP.L23.velocity p) 0 x t = 0 := by
@@ -139,7 +139,7 @@ theorem ehep_II_riemann (p : EHEP.P) (x t : ℝ) (hD : p.D ≠ 0) (ht : t ≠ 0)
 theorem ehep_II_isentrope (p : EHEP.P) (x t : ℝ) (hD : p.D ≠ 0) :
     EHEP.L22.density p x t = 16 * p.rho_0 / (9 * p.D) * EHEP.L22.sound_speed p x t ∧
     EHEP.L22.pressure p x t = 16 * p.rho_0 / (27 * p.D) * EHEP.L22.sound_speed p x t ^ 3 := by
-  constructor <;> simp only [epv_leaf] <;> field_simp
+  constructor <;> simp only [epv_leaf] <;> field_simp <;> (try ring1)
 
 theorem ehep_II_mass (p : EHEP.P) (x t : ℝ) (hD : p.D ≠ 0) (ht : t ≠ 0) (h2 : t - p.xtilde / p.D ≠ 0) :
     massRes (EHEP.L22.density p) (EHEP.L22.velocity p) 0 x t = 0 := by
@@ -215,7 +215,7 @@ theorem ehep_III_riemann (p : EHEP.P) (x t : ℝ) (hD : p.D ≠ 0) :
 theorem ehep_III_isentrope (p : EHEP.P) (x t : ℝ) (hD : p.D ≠ 0) :
     EHEP.L19.density p x t = 16 * p.rho_0 / (9 * p.D) * EHEP.L19.sound_speed p x t ∧
     EHEP.L19.pressure p x t = 16 * p.rho_0 / (27 * p.D) * EHEP.L19.sound_speed p x t ^ 3 := by
-  constructor <;> simp only [epv_leaf] <;> field_simp
+  constructor <;> simp only [epv_leaf] <;> field_simp <;> (try ring1)
 
 theorem ehep_III_mass (p : EHEP.P) (x t : ℝ) (hD : p.D ≠ 0) :
     massRes (EHEP.L19.density p) (EHEP.L19.velocity p) 0 x t = 0 := by
@@ -291,7 +291,7 @@ theorem ehep_IV_riemann (p : EHEP.P) (x t : ℝ) (hD : p.D ≠ 0) (h4 : p.D * t 
 theorem ehep_IV_isentrope (p : EHEP.P) (x t : ℝ) (hD : p.D ≠ 0) :
     EHEP.L18.density p x t = 16 * p.rho_0 / (9 * p.D) * EHEP.L18.sound_speed p x t ∧
     EHEP.L18.pressure p x t = 16 * p.rho_0 / (27 * p.D) * EHEP.L18.sound_speed p x t ^ 3 := by
-  constructor <;> simp only [epv_leaf] <;> field_simp
+  constructor <;> simp only [epv_leaf] <;> field_simp <;> (try ring1)
 
 theorem ehep_IV_mass (p : EHEP.P) (x t : ℝ) (hD : p.D ≠ 0) (h4 : p.D * t - p.xtilde ≠ 0) :
     massRes (EHEP.L18.density p) (EHEP.L18.velocity p) 0 x t = 0 := by
@@ -367,7 +367,7 @@ theorem ehep_V_riemann (p : EHEP.P) (x t : ℝ) (hD : p.D ≠ 0) (h2 : t - p.xti
 theorem ehep_V_isentrope (p : EHEP.P) (x t : ℝ) (hD : p.D ≠ 0) :
     EHEP.L17.density p x t = 16 * p.rho_0 / (9 * p.D) * EHEP.L17.sound_speed p x t ∧
     EHEP.L17.pressure p x t = 16 * p.rho_0 / (27 * p.D) * EHEP.L17.sound_speed p x t ^ 3 := by
-  constructor <;> simp only [epv_leaf] <;> field_simp
+  constructor <;> simp only [epv_leaf] <;> field_simp <;> (try ring1)
 
 theorem ehep_V_mass (p : EHEP.P) (x t : ℝ) (hD : p.D ≠ 0) (h2 : t - p.xtilde / p.D ≠ 0) :
     massRes (EHEP.L17.density p) (EHEP.L17.velocity p) 0 x t = 0 := by
